@@ -35,6 +35,10 @@ def protocol_violations(results, status, stats=None):
                 ok_, target_ = _walk(rr.monitor.data, pe.detail.get("path") or ())
                 if ok_ and isinstance(target_, dict):
                     pe.what = "defer_target_created_by_later_payload"
+            if pe.what == "stream_target_not_a_list" and isinstance(pe.detail, dict):
+                ok_, target_ = _walk(rr.monitor.data, pe.detail.get("path") or ())
+                if ok_ and isinstance(target_, list):
+                    pe.what = "stream_target_created_by_later_payload"
             fp = {"rule": pe.rule, "what": pe.what, "world": "W1"}
             if pe.what in ("defer_target_not_an_object", "stream_target_not_a_list") \
                     and isinstance(pe.detail, dict):
